@@ -1,6 +1,72 @@
 import PgFdr.Json
+import PgFdr.Model.C10
 namespace PgFdr.Driver
 open Lean PgFdr
+
+def jscoreC10 (j : Json) : R (Option Rat) :=
+  match j with
+  | .str "nan" => .ok none
+  | _ => do pure (some (← jrat j))
+
+/-- `{"pep":…, "mod":…, "score": "nan" | [num,den], "prot":[…], "decoy": bool}` -/
+def jrawRowC10 (j : Json) : R C10.RawRow := do
+  let pep ← jstr (← jget j "pep")
+  let mod ← match jgetOpt j "mod" with
+    | some m => jstr m
+    | none => pure ""
+  let score ← jscoreC10 (← jget j "score")
+  let prot ← jstrs (← jget j "prot")
+  let decoy ← match jgetOpt j "decoy" with
+    | some b => jbool b
+    | none => pure false
+  pure { pep := pep, mod := mod, score := score, prot := prot, decoy := decoy }
+
+/-- `[[peptide, [proteins…]], …]` in dict order -/
+def jdmapC10 (j : Json) : R C10.DMap :=
+  jlist (fun e => do
+    match e with
+    | .arr #[p, ps] => pure ((← jstr p), (← jstrs ps))
+    | _ => .error s!"expected [peptide, proteins], got {e.compress}") j
+
+def formatNameC10 : C10.Format → String
+  | .maxquant => "maxquant" | .percNative => "percolator_native" | .percMokapot => "percolator_mokapot"
+  | .fragpipe => "fragpipe" | .sage => "sage" | .diann => "diann"
+
+/-- `{"op":"ingest","method":<shipped method name>,"mokapot":bool,"maps":[dmap…],"files":[[row…]…]}`
+    → `{"pil":[[peptide,[num,den],[proteins…]]…],"format":…,"remap":bool}` (dict order);
+    razor methods → `{"err":"razor_unsupported"}` -/
+def handleIngest (j : Json) : R Json := do
+  let name ← jstr (← jget j "method")
+  let mokapot ← match jgetOpt j "mokapot" with
+    | some b => jbool b
+    | none => pure false
+  match C10.scoreTypeOfMethod name with
+  | none => .error s!"unknown method {name}"
+  | some d =>
+    if C10.isRazorMethod name then pure (ofErr "razor_unsupported") else
+    let mode := C10.modeOfScoreType d mokapot
+    let maps ← jlist jdmapC10 (← jget j "maps")
+    let files ← jlist (jlist jrawRowC10) (← jget j "files")
+    if mode.format = .sage ∧ files.any (fun f => f.any (fun r => match r.score with
+        | some x => x.den != 1
+        | none => false)) then .error "sage exponent is not an integer" else
+    let pil := C10.ingestFiles C10.exactT mode maps files
+    pure (obj [("pil", ofList ofPepInfo pil), ("format", .str (formatNameC10 mode.format)),
+               ("remap", .bool mode.remap)])
+
+/-- `{"op":"c10_strops","strings":[…]}` → per string: `remove_modifications`, `split(";")`,
+    `split(", ")`, `split("\t")`, `[1:-1]`, `[2:-2]`, flank test -/
+def handleStrops (j : Json) : R Json := do
+  let ss ← jstrs (← jget j "strings")
+  pure (obj [("out", ofList (fun s => obj [
+    ("rm", .str (C10.removeMods s)),
+    ("semi", ofStrs (C10.splitOn ";" s)),
+    ("comma", ofStrs (C10.splitOn ", " s)),
+    ("tab", ofStrs (C10.splitOn "\t" s)),
+    ("s11", .str (C10.slice 1 1 s)),
+    ("s22", .str (C10.slice 2 2 s)),
+    ("flank", .bool (C10.hasFlanks s))]) ss)])
+
 /-- protocol handlers of property C10: (op name, handler) -/
-def handlersC10 : List (String × (Json → R Json)) := []
+def handlersC10 : List (String × (Json → R Json)) := [("ingest", handleIngest), ("c10_strops", handleStrops)]
 end PgFdr.Driver
